@@ -69,6 +69,7 @@ class Run:
         self.objdecl = []
         self.raises = {}
         self.reacts = {}
+        self.react_ops = {}
         self.traits = {}
         self.decoy_seed = None
         self.gone = {}          # forgotten objects: oid -> weak reference
@@ -101,6 +102,10 @@ class Run:
                 self.traits[int(t[1])] = set(t[2:])
             elif t[0] == 'decoy':
                 self.decoy_seed = int(t[1])
+            elif t[0] == 'react' and t[4] == 'do':
+                # react <obj> <method> <k> do <op> ; <op> …: the k-th invocation makes these calls on the world
+                from harness.models.disp import parse_ops
+                self.react_ops[(int(t[1]), t[2], int(t[3]))] = parse_ops(t[5:])
             elif t[0] == 'react':
                 # react <obj> <method> <k> delete <entity>: the k-th invocation calls world.delete_entity
                 assert t[4] == 'delete'
@@ -116,6 +121,13 @@ class Run:
             else:
                 raise ValueError(f'bad scenario line {ln!r}')
         self.meths = meths
+        declared = {o for o, _ in self.objdecl}
+        for ops in self.react_ops.values():
+            for t in ops:
+                refs = [x for x in (t[2:3] if t[0] == 'add' else split_list(t[2]) if t[0] == 'create' else
+                                    t[1:2] if t[0] == 'addproc' else []) if x.isdigit()]
+                if any(int(x) not in declared for x in refs):
+                    raise ValueError(f'reaction refers to an undeclared object: {t}')
 
     # ---------------------------------------------------------------- classes and objects
     def build(self):
@@ -192,6 +204,8 @@ class Run:
         class W(desper.World):
             def dispatch(wself, event_name, *args, **kwargs):
                 run.obs.append('dbeg')
+                if event_name == 'on_single_dispatch':
+                    run.obs.append('dnosort')       # one receiver (the world itself): nothing to canonicalise
                 try:
                     super().dispatch(event_name, *args, **kwargs)
                 finally:
@@ -274,6 +288,15 @@ class Run:
         if x is not None:
             self.deferred.append(x)
             self.w.delete_entity(ent_py(x))
+        if (oid, mname, k) in self.react_ops:
+            self.obs.append('dnosort')      # nested calls: the order of what follows is part of the behaviour
+        me = str(ent_code(args[0])) if len(args) == 2 and args[1] is self.w and not kwargs else '0'
+        for op in self.react_ops.get((oid, mname, k), ()):
+            # a call back into the world from inside the callback; whatever it raises leaves the callback
+            # (entity 0 in the script: "the entity this callback was told about")
+            if op[0] in ('add', 'remove', 'delete') and op[1] == '0':
+                op = [op[0], me] + list(op[2:])
+            self.exec_op(op)
         exc = self.raises.get((oid, mname, k))
         if exc:
             raise Scripted(exc)
@@ -509,13 +532,18 @@ def canon(obs):
             stack.append([])
         elif o == 'dend':
             blk = stack.pop()
-            blk = sorted(blk, key=lambda l: int(l.split()[1])) if all(l.startswith('cb ') for l in blk) else blk
+            keep = 'dnosort' in blk
+            blk = [l for l in blk if l != 'dnosort']
+            if not keep and all(l.startswith('cb ') for l in blk):
+                blk = sorted(blk, key=lambda l: int(l.split()[1]))
             (stack[-1] if stack else out).extend(blk)
+            if keep and stack:
+                stack[-1].append('dnosort')
         else:
             (stack[-1] if stack else out).append(o)
     while stack:
         out.extend(stack.pop(0))
-    return out
+    return [l for l in out if l != 'dnosort']
 
 
 def run_impl(lines):
